@@ -162,14 +162,17 @@ def r_errors(chk, P, tier):
 
 
 def r_strings(chk, P, tier):
-    chk.rule("REACH.string_forms", "string forms serialize through the default writers (collect_str / RFC 3339) and deserialize through FromStr", floor=8)
+    chk.rule("REACH.string_forms", "string forms serialize through the default writers (collect_str / RFC 3339) and deserialize through FromStr; a string is the only primitive a string-serialized type writes", floor=10)
     sers = [n for n in P.fns if n.endswith("::serialize") and "serde::Serialize" in n and "{" not in n and "::serialize::" not in n and P.has(n)]
-    for ty in ("naive::date::NaiveDate", "naive::time::NaiveTime", "naive::datetime::NaiveDateTime", "datetime::DateTime<Tz>"):
+    for ty in ("naive::date::NaiveDate", "naive::time::NaiveTime", "naive::datetime::NaiveDateTime", "datetime::DateTime<Tz>", "weekday::Weekday", "month::Month"):
         fn = [n for n in sers if n.startswith("<%s as" % ty) or ("impl serde::Serialize for %s>" % ty) in n]
         if len(fn) != 1:
             raise AnchorLost("Serialize for " + ty)
         cs = callees(P, fn[0])
-        ok = any(c.endswith("Serializer::collect_str") for c in cs)
+        # a string is the only primitive written: the Deserialize side requests deserialize_str (PAIR.str_primitive), so any other
+        # Serializer method (serialize_unit_variant, serialize_u32, ...) round-trips only in self-describing formats
+        others = sorted(c.split("::")[-1] for c in cs if "Serializer::" in c and not c.endswith(("Serializer::collect_str", "Serializer::serialize_str")))
+        ok = any(c.endswith("Serializer::collect_str") for c in cs) and not others
         chk.expect(ok, "Serialize for " + ty, "%s does not serialize with collect_str (callees %s)" % (fn[0], sorted(c.split("::")[-1] for c in cs)), loc=P.loc(fn[0]))
     # DateTime's Display wrapper writes RFC 3339 with the non-panicking wall clock
     fmt = [n for n in P.fns if "FormatIso8601" in n and n.endswith("::fmt") and P.has(n)]
